@@ -431,7 +431,19 @@ def shape_variants(s):
             out.append(("size_one", s[:k] + [1] + s[k + 1:]))
     if s != s[::-1]:
         out.append(("swapped", s[::-1]))
-    return [(t, v) for t, v in out if v != s and len(v) >= 1]
+    # another ORDER with every common mode equal: s is a proper prefix / suffix of the variant or the other way round (a comparison that
+    # pairs the two size tuples entry by entry — zip — stops at the shorter one; numpy aligns trailing axes, so suffixes always
+    # broadcast and prefixes do when the sizes repeat: (3, 3) with (3,), (5, 1) with (5,), (4, 3, 4) with (4,))
+    for k in range(1, len(s)):
+        out.append(("prefix", s[:k]))
+        out.append(("suffix", s[k:]))
+    out += [("prefix", s + [s[-1]]), ("suffix", [s[0]] + s), ("prefix", s + [s[0]]), ("prefix", s + s)]
+    seen, res = set(), []
+    for t, v in out:
+        if v != s and len(v) >= 1 and tuple(v) not in seen:
+            seen.add(tuple(v))
+            res.append((t, v))
+    return res
 
 
 def _g_two_shapes(rng, tier):
@@ -1147,6 +1159,21 @@ def _g_tenmat_ctor(rng, tier):
                 out.append((dict(base, d=[rp, cp], cd=cd[:-1]), "missing_mode"))
                 out.append((dict(base, d=[rp, cp], cd=cd + [rd[0]]), "rep_mode"))
                 out.append((dict(base, d=[rp, cp], cd=cd[:-1] + [N]), "oob_mode"))
+                # a mode listed twice with a data matrix that has the element count of the lists AS GIVEN (so the element-count test
+                # cannot stand in for the partition test): the repeated mode first / last in rdims, first / last in cdims, twice in
+                # the same list or once in each.  For a SINGLETON mode the matrix is at the same time the right one for the
+                # de-duplicated lists (tag rep_singleton); for a longer mode it has more entries than the tensor (rep_mode)
+                for m in range(N):
+                    tag = "rep_singleton" if s[m] == 1 else "rep_mode"
+                    out.append((dict(base, d=[rp * s[m], cp], rd=[m] + rd), tag))
+                    out.append((dict(base, d=[rp * s[m], cp], rd=rd + [m]), tag))
+                    out.append((dict(base, d=[rp, cp * s[m]], cd=[m] + cd), tag))
+                    out.append((dict(base, d=[rp, cp * s[m]], cd=cd + [m]), tag))
+        # every mode in rdims (cdims empty) with one of them twice
+        for m in range(N):
+            tag = "rep_singleton" if s[m] == 1 else "rep_mode"
+            out.append(({"ts": list(s), "rd": list(range(N)) + [m], "cd": [], "d": [math.prod(s) * s[m], 1]}, tag))
+            out.append(({"ts": list(s), "rd": [], "cd": [m] + list(range(N)), "d": [1, math.prod(s) * s[m]]}, tag))
     return out
 
 
@@ -1740,8 +1767,7 @@ for _n, (_m1, _m2, _f) in W4_SAME_SHAPE.items():
     two_shapes_lite(_n, _m1, _m2, _f)
 
 
-# sptensor.contract / sptensor.nvecs: the requests of the dense methods on a sparse receiver (guards = the code as repaired by
-# fixes/C19-N22.diff / C19-N23.diff)
+# sptensor.contract / sptensor.nvecs: the requests of the dense methods on a sparse receiver (range tests since db95721 / 453f75b)
 reg("sptensor.contract", ("tensor_contract", "sptensor_contract"),
     lambda a: f"{zl(a['s'])} {gz(a['i1'])} {gz(a['i2'])}",
     lambda a: in_range(len(a["s"]), a["i1"]) and in_range(len(a["s"]), a["i2"]) and a["i1"] != a["i2"]
@@ -1756,7 +1782,7 @@ with_kinds(["sptensor.contract", "sptensor.nvecs"], _SP1)
 
 
 # sptensor.scale(factor, dims) with a dense / sparse factor: the descriptor says whether the receiver stores an entry (a receiver
-# without entries answers before the factor's shape is compared: C19-N24)
+# without entries compares the factor's shape too since d89c921; both kinds must be refused alike)
 def _g_sp_scale(rng, tier):
     return [(dict(a, empty=e), t) for a, t in _g_scale(rng, tier) for e in (False, True)]
 
@@ -1767,6 +1793,91 @@ for _n, _mk in (("sptensor.scale_dense", T), ("sptensor.scale_sparse", S)):
         lambda a, _mk=_mk: (lambda x, f: ([x, f], lambda: x.scale(f, _np().array(a["d"], dtype=int))))(S(a["s"], a["empty"]), _mk(a["f"])),
         _g_sp_scale)
 with_kinds(["sptensor.scale_dense", "sptensor.scale_sparse"], _SP1)
+
+
+# sptensor.scale(factor, dims) with a NUMPY VECTOR as factor ("a scaling factor array of length 3 ... along mode 2"): one mode, and the
+# vector has that mode's length.  Descriptor: shape, receiver stores an entry or not, length of the vector, mode list
+def _pre_sp_scale_arr(a):
+    return modes_ok(len(a["s"]), a["d"]) and len(a["d"]) == 1 and a["flen"] == a["s"][a["d"][0]]
+
+
+def _g_sp_scale_arr(rng, tier):
+    out = []
+    for s in pool(tier, 1, 3):
+        s, N = list(s), len(s)
+
+        def case(d, flen, tag):
+            for e in (False, True):
+                a = {"s": s, "empty": e, "flen": flen, "d": d}
+                out.append((a, "control" if _pre_sp_scale_arr(a) else tag))
+        for m in range(N):
+            case([m], s[m], "control")
+            case([m], s[m] + 1, "size")
+            case([m], 2 * s[m], "size")
+            if s[m] != 1:
+                case([m], 1, "size_one")
+                case([m], s[m] - 1, "size")
+            for m2 in range(N):
+                if m2 != m:
+                    case([m], s[m2], "other_mode")
+                    case([m, m2], s[m], "two_modes")
+                    case([m, m2], s[m2], "two_modes")
+                    case([m, m2], s[m] * s[m2], "two_modes")
+        for tag, d in bad_mode_lists(N):
+            case(d, s[d[0]] if 0 <= d[0] < N else 2, tag)
+    return out
+
+
+reg("sptensor.scale_array", "sptensor_scale_arr", lambda a: f"{zl(a['s'])} {gbool(a['empty'])} {gz(a['flen'])} {zl(a['d'])}",
+    _pre_sp_scale_arr,
+    lambda a: (lambda x, f: ([x, f], lambda: _quiet_warn(lambda: x.scale(f, _np().array(a["d"], dtype=int)))))(S(a["s"], a["empty"]), 1.0 + _np().arange(float(a["flen"]))),
+    _g_sp_scale_arr)
+with_kinds(["sptensor.scale_array"], _SP1)
+
+
+# tensor.ttsv(vector, skip_dim) (default algorithm = version 2, "Sizes of all modes must be the same"): the tensor is cubical, skip_dim
+# is None or a mode, and the vector has the modes' length whenever a mode is multiplied (skip_dim = ndims - 1 multiplies nothing)
+def _ttsv_drem(a):
+    return len(a["s"]) - ((a["skip"] if a["skip"] is not None else -1) + 1)
+
+
+def _pre_ttsv(a):
+    s, N, sk = a["s"], len(a["s"]), a["skip"]
+    if sk is not None and not 0 <= sk < N:
+        return False
+    if any(x != s[0] for x in s):
+        return False
+    return _ttsv_drem(a) == 0 or a["vlen"] == s[0]
+
+
+# shapes that are NOT cubical although they have the element count shape[0] ** ndims of a cubical tensor
+TTSV_COUNT = [(2, 4, 1), (2, 1, 4), (4, 2, 8), (4, 8, 2), (3, 9, 1), (2, 4, 2, 1), (2, 8, 1, 1), (4, 1, 16), (2, 1, 1, 8)]
+
+
+def _g_ttsv(rng, tier):
+    out = []
+    shapes = [list(x) for x in pool(tier, 1, 4)] + [[2, 2], [2, 2, 2, 2], [3, 3, 3, 3], [1, 1, 1, 1]]
+    for s in shapes + [list(x) for x in TTSV_COUNT]:
+        N = len(s)
+        cub = all(x == s[0] for x in s)
+        odd = "control" if cub else ("not_cubical_count" if math.prod(s) == s[0] ** N else "not_cubical")
+        for ver in (None, 2):
+            for skip in [None] + list(range(N)):
+                a = {"s": s, "vlen": s[0], "skip": skip, "version": ver}
+                out.append((a, odd))
+                if _ttsv_drem(a) >= 1:
+                    for v in sorted({s[0] + 1, 1, s[-1], 2 * s[0]} - {s[0]}):
+                        out.append((dict(a, vlen=v), "vec_len" if cub else odd))
+            out.append(({"s": s, "vlen": s[0], "skip": -1, "version": ver}, "neg_mode" if cub else odd))
+            out.append(({"s": s, "vlen": s[0], "skip": N, "version": ver}, "oob_mode" if cub else odd))
+            out.append(({"s": s, "vlen": s[0], "skip": N + 1, "version": ver}, "oob_mode" if cub else odd))
+    return out
+
+
+reg("tensor.ttsv", "ttsv", lambda a: f"{zl(a['s'])} {gz(a['vlen'])} {'None' if a['skip'] is None else '(Some ' + gz(a['skip']) + ')'}", _pre_ttsv,
+    lambda a: (lambda x, v: ([x, v], lambda: _quiet_warn(lambda: x.ttsv(v, a["skip"], a["version"]))))(T(a["s"]), 1.0 + _np().arange(float(a["vlen"]))),
+    _g_ttsv)
+with_kinds(["tensor.ttsv"], [(k, None) for k in DENSE_KINDS])
 
 
 # ktensor.update(modes, data): in place.  Descriptor: shape, R = 2 components, the mode list, the length of the data vector.
@@ -1874,7 +1985,7 @@ with_kinds(["ktensor.mask_sparse"], [("norm", None), (None, "empty")])
 
 
 # sptensor.innerprod(other) with a Kruskal / Tucker operand: like innerprod_sp the descriptor says whether the receiver stores an entry
-# (an all-zero receiver answers 0 before the operand is looked at: C19-N21)
+# (an all-zero receiver answers 0 only after the shapes have been compared: 76fa98e)
 def _g_sp_innerprod_lite(rng, tier):
     return [(dict(a, empty=e), t) for a, t in _g_two_shapes_lite(rng, tier) for e in (False, True)]
 
@@ -1914,7 +2025,8 @@ FIXED = {"C19-N02": "b4434a4", "C19-N03": "d384651", "A-42": "f9fb7ec", "A-44": 
          "C19-N04": "d862071", "C19-N05": "2c19f39", "C19-N06": "f9fb7ec", "C19-N07": "5b41ba6", "C19-N08": "aca2504",
          "C19-N10": "d3df9c1", "C19-N12": "922ff4e", "C19-N13": "7d1fad0", "C19-N14": "f8cdd2b", "C19-N15": "03352d0",
          "C19-N01": "072fe0a", "C19-N09": "4943733", "C19-N16": "2c0f010", "C19-N17": "929a206", "C19-N19": "3b2d1cd",
-         "C19-N20": "dc71f18"}
+         "C19-N20": "dc71f18", "C19-N21": "76fa98e", "C19-N22": "db95721", "C19-N23": "453f75b", "C19-N24": "d89c921",
+         "C19-N25": "b9311d6", "C19-N26": "553ad5e"}
 
 
 def finding(fid, trigger, pred, op, witness, what, call_site, proposed="fix", observed="a value is returned",
@@ -2000,7 +2112,7 @@ PROVED = {"tensor.ctor", "tensor.reshape", "tensor.innerprod", "tensor.permute",
           "tensor.getitem_linear", "tensor.setitem_linear", "tensor.scale", "ktensor.mttkrp", "sumtensor.mttkrp", "sptensor.ttm", "ttensor.ttm", "sptensor.mttkrp", "sptensor.extract", "sptensor.from_aggregator", "gcp_opt",
           "tensor.ttv", "tensor.ttm", "tensor.mttkrp", "tensor.collapse", "sptensor.ctor", "ktensor.redistribute",
           "cp_als", "hosvd", "cp_apr", "tucker_als", "sptensor.ttv", "ktensor.ttv", "ttensor.ttv", "sumtensor.ttv",
-          "sptensor.collapse", "ttensor.mttkrp", "ktensor.normalize_mode", "sptensor.innerprod_ktensor", "sptensor.innerprod_ttensor", "sptensor.contract", "sptensor.nvecs", "sptensor.scale_dense", "sptensor.scale_sparse", "ktensor.update", "tensor.mask", "sptensor.mask", "ktensor.mask", "ktensor.mask_sparse"} | set(W4_SAME_SHAPE)      # guard_same_shape: C19_same_shape
+          "sptensor.collapse", "ttensor.mttkrp", "ktensor.normalize_mode", "sptensor.innerprod_ktensor", "sptensor.innerprod_ttensor", "sptensor.contract", "sptensor.nvecs", "sptensor.scale_dense", "sptensor.scale_sparse", "sptensor.scale_array", "tensor.ttsv", "ktensor.update", "tensor.mask", "sptensor.mask", "ktensor.mask", "ktensor.mask_sparse"} | set(W4_SAME_SHAPE)      # guard_same_shape: C19_same_shape
 
 
 def tagfinding(fid, ops, tags, witness_op, witness, what, call_site, extra=lambda a: True, proposed="fix"):
@@ -2135,6 +2247,37 @@ finding("C19-N24", "c19_n24_empty_sparse_scale",
         "sptensor.scale(factor, dims): 'if self.nnz == 0: return self.copy()' comes before the comparison of factor.shape with "
         "shape[dims], so a receiver that stores no entry answers for a factor of ANY shape (mode arguments are still checked)",
         "sptensor.scale")
+
+
+finding("C19-N27", "c19_n27_empty_sparse_scale_array",
+        lambda op, a: op == "sptensor.scale_array" and a["empty"] and modes_ok(len(a["s"]), a["d"]) and not _pre_sp_scale_arr(a),
+        "sptensor.scale_array", {"s": [2, 3, 2], "empty": True, "flen": 5, "d": [1]},
+        "sptensor.scale(factor, dims) with a numpy vector as factor: the shape test that d89c921 (C19-N24) put in front of the "
+        "'self.nnz == 0' early return covers tensor / sptensor factors only, so a receiver that stores no entry answers for a vector "
+        "of ANY length and for any number of listed modes (a receiver with an entry raises 'Size mismatch in scale', or ValueError "
+        "for several modes; tensor.scale raises ValueError)", "sptensor.scale")
+
+
+def _ttsv_answered(a):
+    """the checks numpy makes for the default algorithm: the element count of a cubical tensor and, when a mode is multiplied, the
+    vector's length; with nothing to multiply the count that the final reshape needs"""
+    s, N, sk = a["s"], len(a["s"]), a["skip"]
+    if sk is not None and sk < 0:
+        return False
+    dnew = (sk if sk is not None else -1) + 1
+    if N - dnew >= 1:
+        return math.prod(s) == s[0] ** N and a["vlen"] == s[0]
+    return dnew < 2 or math.prod(s) == s[0] ** dnew
+
+
+finding("C19-N28", "c19_n28_ttsv_not_cubical",
+        lambda op, a: op == "tensor.ttsv" and not _pre_ttsv(a) and _ttsv_answered(a),
+        "tensor.ttsv", {"s": [2, 4, 1], "vlen": 2, "skip": None, "version": None},
+        "tensor.ttsv (default algorithm, version 2; comment 'Sizes of all modes must be the same'): nothing compares the mode sizes — "
+        "the data is reshaped to (shape[0] ** k, shape[0]), so a tensor that is NOT cubical but has shape[0] ** ndims elements "
+        "(2 x 4 x 1, 4 x 2 x 8) is multiplied by a vector of length shape[0] along modes of another length and a number is returned "
+        "(version=1 rejects the same request: 'Multiplicand is wrong size'); on all-singleton tensors skip_dim >= ndims is answered too",
+        "tensor.ttsv")
 
 
 def _upd_first_block_applied(a):
